@@ -13,6 +13,9 @@ package main
 import (
 	"fmt"
 	"os"
+	"runtime/debug"
+	"runtime/pprof"
+	"strings"
 
 	"verif/harness/internal/hx"
 	"verif/harness/internal/prng"
@@ -22,9 +25,16 @@ func main() {
 	f := hx.ParseFlags()
 	o := hx.NewOut(f.Out)
 	defer o.Close()
+	if pf := os.Getenv("VM_PROF"); pf != "" {
+		fh, _ := os.Create(pf)
+		pprof.StartCPUProfile(fh)
+		defer pprof.StopCPUProfile()
+	}
+	debug.SetGCPercent(400)
 	cs := corpus()
 	n := f.N(20000, 600000)
 	dump := os.Getenv("VM_DUMP") != ""
+	dumpFaults = os.Getenv("VM_FAULTS") != ""
 	for k := 0; k < n; k++ {
 		if !f.Want(k) {
 			continue
@@ -47,6 +57,7 @@ func main() {
 		res := rn.exec(p, true)
 		rn.runWhole(p, res)
 		o.Count("final:" + res.state)
+		o.Count("final:" + strings.SplitN(p.kind, ":", 2)[0] + ":" + res.state)
 		if res.cyclic {
 			o.Count("case:cyclic-structure-built")
 		}
